@@ -100,9 +100,9 @@ def drive(scripts, name, procs=4):
     return wp, fp
 
 
-def run(prop, tier, rng):
+def run(prop, tier, rng, only=None):
     """-> (violations, extra, trace-stats)"""
-    scripts = scripts_for(tier, rng)
+    scripts = [only] if only else scripts_for(tier, rng)
     by_id = {s["id"]: s for s in scripts}
     todo, attempts = list(scripts), 0
     final = {}
